@@ -82,7 +82,7 @@ Section Show.
     rewrite (create_build_snd size_of).
     assert (Hbase : forall ls, snd (base_layers size_of (layer_from_layer size_of) (init s) (cr_base q)) = Some ls -> Forall layer_wf ls).
     { destruct (cr_base q) as [d parts fail det|src].
-      - rewrite (base_files_pure size_of). destruct (bget (dhex d) s) as [c0|]; [|discriminate]. destruct fail; [discriminate|]. intros ls [= <-].
+      - rewrite (base_files_pure size_of). destruct (bget (dhex d) s) as [c0|]; [|discriminate]. destruct (fail || match parts with [] => true | _ => false end); [discriminate|]. intros ls [= <-].
         cbn [base_wf] in Hq. apply andb_true_iff in Hq as [Hp Hd]. rewrite forallb_forall in Hp, Hd.
         apply Forall_app. split; apply Forall_forall; intros l Hin; apply in_map_iff in Hin as [p [<- Hin]].
         + specialize (Hp p Hin). destruct p as [mt [c|]]; exact Hp.
